@@ -14,6 +14,20 @@ F64_TB = [
     "expression and hands the value to the model; their accuracy is compared with glibc (Lean Float) inside a band, not proved",
 ]
 
+# Loop ties: proofs that the translation of a Go function WITH ITS LOOPS equals the model. They are obligations about the function
+# as a loop of a given shape (which generated definitions exist, with which parameter types; variable names do not matter). While
+# the function has that shape the proof is a binding obligation like every other; when the shape changes (a loop more or less,
+# another loop state, the loop moved into a helper, another parameter list) the obligation no longer applies: the check prints a
+# TIE-LAPSED line, records it in the evidence, and runs the property's correspondence families at four times their size instead.
+SHAPE_QKENC = dict(module="SpatialId.Props.Tie.QkEnc", function="convertHorizontalIDToQuadkey",
+                   shape=['_loop1 Int : Nat → Int → Int → Int → Int × Int × Int', '_loop2 Int : Nat → Int → Int → Int → Int × Int × Int',
+                          ' Nat Int Int Int : Int'])
+SHAPE_QKDEC = dict(module="SpatialId.Props.Tie.QkDec", function="convertQuadkeyToHorizontalID",
+                   shape=['_loop1 Int : List Int → Int → Int → Int → Int × Int', ' Int Int : Int × Int'])
+SHAPE_SHIFT = dict(module="SpatialId.Props.Tie.ShiftFn", function="GetShiftingSpatialID",
+                   shape=['_loop1 Int : Nat → Int → Int', '_loop2 Int : Nat → Int → Int',
+                          ' Nat Int Int Int Int Int Int Int Int : Int × Int × Int × Int × Int'])
+
 PROPS = {
     "C01": dict(
         modules=["SpatialId.Props.C01", "SpatialId.Props.C02Centre", "SpatialId.Props.Facts.Point"],
@@ -71,7 +85,8 @@ PROPS = {
         technique="Lean 4 theorems over a bit-exact software-binary64 model + differential correspondence + independent geometric checker",
     ),
     "C07": dict(
-        modules=["SpatialId.Props.C07", "SpatialId.Props.Facts.Shift"],
+        modules=["SpatialId.Props.C07", "SpatialId.Props.Tie.Shift", "SpatialId.Props.Tie.ShiftFn"],
+        shape_ties=[SHAPE_SHIFT],
         families=[("shift", 20000, 150000), ("shift2", 8000, 60000)],
         trusted_base=COMMON_TB,
         assumptions=["float64 math.Pow/math.Mod on integers below 2^53 are exact (|x+dx| < 2^53)"],
@@ -79,9 +94,11 @@ PROPS = {
               "(h, (x+dx) mod 2^h, (y+dy) mod 2^h, v, f+dv); in-range, zero, composition and inverse laws follow. "
               "The model is tied to operated.GetShiftingSpatialID by exact comparison on generated cases "
               "(all zooms, grid edges, offsets up to 4 world widths, malformed IDs) and the composition law is "
-              "also evaluated on the implementation itself.",
-        note="Lean kernel + propext/Classical.choice/Quot.sound; hand-written model tied by sampling, not by proof; "
-             "int64 overflow not modelled (|x+dx| < 2^53 as in the property).",
+              "also evaluated on the implementation itself. Props/Tie/ShiftFn.lean: the Go function, translated from the "
+              "source on every run (its two wrap loops as recursions over fuel, the float idioms read as exact integer "
+              "operations), equals the model's shiftE on the parsed components for every fuel that lets the loops finish.",
+        note="Lean kernel + propext/Classical.choice/Quot.sound; model tied by the regenerated translation (proof) and by sampling; "
+             "int64 overflow not modelled and math.Pow/math.Mod read as exact (|x+dx| < 2^53 as in the property).",
         technique="Lean 4 theorems over an executable model + differential correspondence with the Go code",
     ),
     "C03": dict(
@@ -135,7 +152,8 @@ PROPS = {
         technique="Lean 4 theorems over an executable model + differential correspondence with the Go code",
     ),
     "C08": dict(
-        modules=["SpatialId.Props.C08", "SpatialId.Props.C08Count", "SpatialId.Props.C10Parse", "SpatialId.Props.Facts.Shift"],
+        modules=["SpatialId.Props.C08", "SpatialId.Props.C08Count", "SpatialId.Props.C10Parse", "SpatialId.Props.Tie.Shift", "SpatialId.Props.Tie.ShiftFn"],
+        shape_ties=[SHAPE_SHIFT],
         families=[("nbr", 12000, 80000), ("nN", 3000, 20000)],
         trusted_base=COMMON_TB,
         assumptions=["float64 math.Pow/math.Mod on integers below 2^53 are exact"],
@@ -182,6 +200,7 @@ PROPS = {
     ),
     "C11": dict(
         modules=["SpatialId.Props.C11", "SpatialId.Props.C11List", "SpatialId.Props.Tie.Shift", "SpatialId.Props.Tie.QkEnc", "SpatialId.Props.Tie.QkDec"],
+        shape_ties=[SHAPE_QKENC, SHAPE_QKDEC],
         families=[("quadkey", 30000, 200000), ("quadkeyExh", 1, 1), ("qv", 4000, 20000), ("qvrt", 2000, 10000)],
         trusted_base=COMMON_TB + ["strconv.FormatInt(n, 4) = base-4 digits, most significant first, no leading zeros"],
         assumptions=["quadkey zoom 1..31 (keys below 2^62)"],
@@ -191,9 +210,12 @@ PROPS = {
               "dec(enc(x,y)) = (x,y) and enc(dec(k)) = k on the whole domain (one-to-one); zoom errors and no panics for the "
               "exported conversions. The round trip through the exported conversions (same zooms: identity; different zooms: "
               "the C03 zoom change per axis), cross-group de-duplication and echo of the request parameters are tied by "
-              "exact comparison on the implementation (qv, qvrt), exhaustively for zooms 1..5 (quadkeyExh).",
-        note="Lean kernel + propext/Classical.choice/Quot.sound; model tied by sampling; list-level round trip is checked by "
-             "correspondence against the C03 model rather than proved as a theorem.",
+              "exact comparison on the implementation (qv, qvrt), exhaustively for zooms 1..5 (quadkeyExh). Props/C11List.lean: "
+              "the list-level round trip equals the C03 zoom change (roundtrip_eq_changeZoom, roundtrip_same_zoom) and no pair is "
+              "reported twice (groupPairs_spec). Props/Tie/QkEnc.lean, Props/Tie/QkDec.lean: the encoder and the decoder, translated "
+              "from the Go source on every run with their loops, equal the model's qkEnc (for every fuel >= zoom) and qkDec.",
+        note="Lean kernel + propext/Classical.choice/Quot.sound; encoder/decoder tied by the regenerated translation (proof) "
+             "and by sampling, the exported list functions by sampling.",
         technique="Lean 4 theorems over an executable model + differential correspondence with the Go code",
     ),
     "C12": dict(
